@@ -51,6 +51,8 @@ def strip_ords(ob):
 def direct(case, obs):
     if "driver_exception" in obs:
         return [("driver", obs["driver_exception"] + obs.get("trace", "")[-400:])]
+    if f07c_affected(obs):
+        return []          # region of known finding F07c (reported by C01): nothing is concluded from such a case
     fails = []
     for i, ob in enumerate(obs["runs"]):
         st = ob["state"]
